@@ -133,7 +133,7 @@ func main() {
 		os.Exit(2)
 	}
 	rep := core.NewReport(ck.ID, *tier, seed)
-	rep.Explanation = ck.Explanation
+	rep.Explanation = ck.Explanation + props.GuardedNote(ck.ID)
 	rep.Assumptions = ck.Assumptions
 	rep.Trusted = props.CommonTrusted
 	ov, err := parseOverlay(*overlay)
@@ -225,7 +225,7 @@ func runAll(dir, verif string, seed int, overlay string) int {
 	for _, id := range ids {
 		ck := props.Registry[id]
 		rep := core.NewReport(ck.ID, "quick", seed)
-		rep.Explanation = ck.Explanation
+		rep.Explanation = ck.Explanation + props.GuardedNote(ck.ID)
 		rep.Assumptions = ck.Assumptions
 		rep.Trusted = props.CommonTrusted
 		rep.SetConfig(cfg.Name)
